@@ -27,6 +27,7 @@ COMPONENTS = {
 
 compat.quiet_logging()
 compat.install_requests_shim()
+compat.pin_policy_order()
 
 
 class StackRig:
